@@ -2221,6 +2221,9 @@ class Generator:
             prop = "MANUAL"
         elif never:
             prop = "NEVER"
+        else:
+            self.unsupported("BLOCKCOMPRESSION requires one of its options to be set")
+            prop = ""
         return f"BLOCKCOMPRESSION={prop}"
 
     def isolatedloadingproperty_sql(self, expression: exp.IsolatedLoadingProperty) -> str:
